@@ -118,6 +118,7 @@ func (c *conn) serveRequests() error {
 			}
 			return fmt.Errorf("%s: error reading request: %w", op, err)
 		}
+		verifGate("conn.read", c.connID, w.requestID)
 
 		switch {
 		// TODO: rate limit in-flight requests per conn and send a
